@@ -263,6 +263,39 @@ theorem C18_modes_sum (ms : List Mode) (hne : ms ≠ []) (hnn : ∀ m ∈ ms, No
 /-- `modepb.Sum()` of no modes is `nil`. -/
 theorem C18_modes_sum_empty : modeSum [] = none := rfl
 
+/-- For the record, `modepb.Sum` before `fix:` 7872cfb (`modeSumLegacy zero`, with `zero` the instant of
+the zero `time.Time`: "not set yet" was `earliest.IsZero()` / `latest.IsZero()`) computed the same mode as
+the repaired code whenever no start time was the zero instant … -/
+theorem C18_modes_sum_legacy_exact (zero : Int) (ms : List Mode) (hz : ∀ s ∈ starts ms, s ≠ zero) :
+    modeSumLegacy zero ms = modeSum ms := by
+  cases ms with
+  | nil => rfl
+  | cons m0 ms0 =>
+    have h := startsLoopLegacy_eq zero (m0 :: ms0) hz zero zero 0 none none (Or.inl ⟨rfl, rfl, rfl, rfl, rfl⟩)
+    unfold modeSumLegacy modeSum
+    rcases h with ⟨h0, hp⟩ | ⟨hn, hp⟩
+    · have : ¬ (startsLoopLegacy zero zero zero 0 (m0 :: ms0)).2.2 > 0 := by omega
+      simp only [this, if_false, hp]
+    · simp only [gt_iff_lt, hn, if_true, hp]
+
+/-- … and was wrong when one was (the defect `C18/modepb.Sum/wrong-start`, repaired): with the zero instant
+at `0`, `Sum(mode@0 [4 for 10ns], mode@5 [1 for 2ns])` started at `5` — the later start replaced the zero
+one as "earliest" — and so was `0` at instant `0` where the pointwise sum is `4`; in the other direction a
+mode without start time was placed at the wrong "most recent" start.  The repaired `Sum` starts at `0`
+and is `4` there. -/
+theorem C18_modes_sum_legacy_fails :
+    modeSumLegacy 0 [⟨some 0, [⟨4, some 10⟩]⟩, ⟨some 5, [⟨1, some 2⟩]⟩]
+      = some ⟨some 5, [⟨5, some 2⟩, ⟨4, some 3⟩]⟩ ∧
+    modeDenOpt 0 (modeSumLegacy 0 [⟨some 0, [⟨4, some 10⟩]⟩, ⟨some 5, [⟨1, some 2⟩]⟩]) 0 = 0 ∧
+    modeDenSum 5 [⟨some 0, [⟨4, some 10⟩]⟩, ⟨some 5, [⟨1, some 2⟩]⟩] 0 = 4 ∧
+    modeSum [⟨some 0, [⟨4, some 10⟩]⟩, ⟨some 5, [⟨1, some 2⟩]⟩]
+      = some ⟨some 0, [⟨4, some 5⟩, ⟨5, some 2⟩, ⟨4, some 3⟩]⟩ ∧
+    (modeSumLegacy 0 [⟨some 0, [⟨1, some 1⟩]⟩, ⟨some (-1), []⟩, ⟨none, [⟨2, some 1⟩]⟩]).map (·.segs)
+      = some [⟨2, some 1⟩, ⟨1, some 1⟩] ∧
+    (modeSum [⟨some 0, [⟨1, some 1⟩]⟩, ⟨some (-1), []⟩, ⟨none, [⟨2, some 1⟩]⟩]).map (·.segs)
+      = some [⟨0, some 1⟩, ⟨3, some 1⟩] := by
+  refine ⟨by decide, by decide, by decide, by decide, by decide, by decide⟩
+
 /-! Non-vacuity and concrete values. -/
 example : modeCut 5 ⟨some 2, [⟨1, some 2⟩, ⟨2, some 4⟩, ⟨3, some 1⟩]⟩ =
     ⟨some ⟨some 2, [⟨1, some 2⟩, ⟨2, some 1⟩]⟩, some ⟨some 5, [⟨2, some 3⟩, ⟨3, some 1⟩]⟩, false⟩ := by decide
